@@ -276,8 +276,8 @@ def rand_spec(rng):
     if r < 0.55:
         segs = []
         cur = (0.0, 0.0)
-        for k in range(rng.randint(2, 6)):
-            Ls = rng.choice([1.0, 1.0, 2.0, 300.0, 1000.0])
+        for k in range(rng.choice([rng.randint(2, 6), 5, 10, 7, 11])):
+            Ls = rng.choice([1.0, 1.0, 2.0, 300.0, 1000.0]) if k < 6 else rng.choice([3.0, 7.0, 20.0])
             nxt = (cur[0] + Ls, cur[1]) if k % 2 == 0 else (cur[0], cur[1] + Ls)
             segs.append([cur, nxt])
             cur = nxt
@@ -314,6 +314,10 @@ def search(ctx, budget):
         if rng.random() < 0.3:
             n = max(1, int(L / 4))
         ts = [0.0, 1.0] + [rng.randint(0, 64) / 64.0 for _ in range(4)] + [rng.random() for _ in range(3)]
+        if spec["kind"] in ("path", "rect", "ellipse"):
+            # the segment boundaries k/n themselves (as floats: for n = 5, 10, 49, ... the product t*n and the quotient t/(1/n) round differently)
+            nseg = len(build(spec).asSegments())
+            ts += [k / nseg for k in range(1, nseg)][:12]
         inp = {"spec": spec, "n": n, "ts": ts}
         msg = check(spec, n, ts)
         if msg is None and spec["kind"] == "segment" and len(spec["pts"]) > 2 and L < 800:
